@@ -109,6 +109,14 @@ def hvCmd (op : String) (st : Store) : Option (P (Store × String)) :=
         | .trad s => HvObj.trad (timeMask m s)
         | .az s => HvObj.az (s.timeMask m)
       pure (st.put id o', "ok " ++ fObj o'))
+  | "hv.setmasks" => some (withObj fun id o => do
+      let az ← nat; let vw ← boolVec; let vp ← boolVec
+      let o' := match o with
+        | .trad s => HvObj.trad (setMasks vw vp s)
+        | .az s =>
+          let hs := (List.zip (List.range s.hvsrs.length) s.hvsrs).map (fun p => if p.1 = az then setMasks vw vp p.2 else p.2)
+          HvObj.az { s with hvsrs := hs }
+      pure (st.put id o', "ok " ++ fObj o'))
   | "hv.manual" => some (withObj fun id o => do
       let az ← nat; let idx ← natVec
       let o' := match o with
